@@ -135,6 +135,12 @@ func (s *nullChunkSection) clone(dst *os.File, offset, length, blocksize uint64)
 	dstAlignStart := (offset/blocksize + 1) * blocksize
 	dstAlignEnd := (offset + length) / blocksize * blocksize
 
+	// If the range doesn't contain a whole block there's nothing to clone and
+	// the areas before and after would reach outside of it
+	if dstAlignEnd <= dstAlignStart {
+		return s.copy(dst, offset, length)
+	}
+
 	// fill the area before the first aligned block
 	var copied, cloned uint64
 	c1, _, err := s.copy(dst, offset, dstAlignStart-offset)
